@@ -16,7 +16,7 @@ func init() {
 		LevelText:   "Structural clauses decided for all paths: every store to the high watermark anywhere in the module is either pre-publication or guarded by new > old under the log's write lock; only the three named writers call SetHighWatermark; the waiter protocol re-checks the watermark and registers the waiter inside one critical section and notifications cannot block; the committed reader's read limit on the watermark segment is min(len, hwPos-pos), it re-synchronises the watermark position after every wake-up, and parked readers cannot reach the read loop without a watermark change; subscriptions always create committed readers. Exactly-once / eventual delivery under all schedules is not decided.",
 		LevelNote:   "Trusted: go/ssa, the lock table (commitLog.hw, hwWaiters under commitLog.mu), the frozen writer list; liveness and data equality need execution.",
 		DesignRef:   "DESIGN.md §4 C03",
-		Explanation: "R03.1 monotonic stores to commitLog.hw (all stores discovered), R03.2 who may call SetHighWatermark, R03.3 lost-wake-up freedom of waitForHW/notify*, R03.4 read limit and re-sync after wake-up, R03.5 subscriptions use committed readers, R03.6 parked readers. NOT decided: exactly-once and eventual delivery, stale hwPos across concurrent segment replacement.",
+		Explanation: "R03.1 monotonic stores to commitLog.hw (all stores discovered), R03.2 who may call SetHighWatermark, R03.3 lost-wake-up freedom of waitForHW/notify*, R03.4 read limit and re-sync after wake-up, R03.5 subscriptions use committed readers, R03.6 parked readers, R03.7 read-only end of log, R03.8 lock pairing, R03.9 end-of-log announced only at the current watermark, R01.9 (shared) reader segment / resume provenance; R03.1 also requires the new > old test to run under the same write-lock hold as the store. NOT decided: exactly-once and eventual delivery, stale hwPos across concurrent segment replacement.",
 	})
 }
 
@@ -390,6 +390,11 @@ func runC03(c *eng.Ctx) {
 	}
 	c.Floor(3)
 
+	// ---- R03.9 a reader that has not seen the newest watermark is woken, not told that the log ended
+	c.Rule("R03.9", "K1")
+	ruleEndOfLogAtCurrentHW(c)
+	c.Floor(1)
+
 	// ---- R01.9 (shared with C01, C10): the segment a reader reads from comes from a lookup of its own position
 	c.Rule("R01.9", "K5")
 	ruleReaderSegment(c)
@@ -561,5 +566,29 @@ func ruleFastPathGate(c *eng.Ctx) {
 		i := indexOfLoad(eng.AllArgs(sh.Common())[1])
 		okV := i != nil && eng.Call(0, "server/commitlog.CommitLog.Append")(i.X)
 		c.Check(okV, "fast path commits what was just appended", c.Pos(sh.(ssa.Instruction)), "SetHighWatermark(offsets[len-1]) of Append's result", "the fast path advances the watermark to something other than the last offset Append returned")
+	}
+}
+
+// ruleEndOfLogAtCurrentHW (R03.9, shared with C10).
+func ruleEndOfLogAtCurrentHW(c *eng.Ctx) {
+	p := c.P
+	hw := p.Field(clPkg, "commitLog", "hw")
+	if fn := c.Fn("server/commitlog.(*commitLog).waitForHW"); fn != nil {
+		same := eng.CmpEdges(fn, eng.Load(hw, nil), eng.Param("hw"), eng.EQ)
+		// sends of `true` (end of a read-only log) into the wait channel
+		n, ok := 0, len(same) > 0
+		var w *eng.Witness
+		eng.Instrs(fn, func(in ssa.Instruction) {
+			snd, isS := in.(*ssa.Send)
+			if !isS || !constBool(snd.X, true) {
+				return
+			}
+			n++
+			g, wt := eng.GuardedBy(fn, in, same)
+			if !g {
+				ok, w = false, wt
+			}
+		})
+		c.Check(ok && n >= 1, "end-of-log is announced only to a reader that is at the current watermark", p.Pos(fn.Pos()), "`true` is sent only on l.hw == hw (the reader's sampled watermark)", "waitForHW can tell a reader that the read-only log has ended although the watermark moved since the reader sampled it (path "+w.String()+"): the subscription ends without delivering the last committed messages")
 	}
 }
